@@ -12,11 +12,19 @@ var _ Pass = (*PrefixObjectNames)(nil)
 // PrefixObjectNames adds the given prefix to every object's name.
 type PrefixObjectNames struct {
 	Prefix string
+
+	// packages of the schemas being processed: only their objects are renamed
+	packages map[string]struct{}
 }
 
 func (pass *PrefixObjectNames) Process(schemas []*ast.Schema) ([]*ast.Schema, error) {
 	if pass.Prefix == "" {
 		return schemas, nil
+	}
+
+	pass.packages = make(map[string]struct{}, len(schemas))
+	for _, schema := range schemas {
+		pass.packages[schema.Package] = struct{}{}
 	}
 
 	visitor := &Visitor{
@@ -70,7 +78,7 @@ func (pass *PrefixObjectNames) processStruct(visitor *Visitor, schema *ast.Schem
 
 	// hints can be set by users: the value isn't necessarily a disjunction
 	if disjunction, ok := structDef.Hints[ast.HintDiscriminatedDisjunctionOfRefs].(ast.DisjunctionType); ok {
-		disjunction.DiscriminatorMapping = pass.processDisjunctionMapping(disjunction.DiscriminatorMapping)
+		disjunction.DiscriminatorMapping = pass.processDisjunctionMapping(schema, disjunction)
 		structDef.Hints[ast.HintDiscriminatedDisjunctionOfRefs] = disjunction
 		structDef.AddToPassesTrail(fmt.Sprintf("PrefixObjectNames[prefix=%s]", pass.Prefix))
 	}
@@ -79,7 +87,7 @@ func (pass *PrefixObjectNames) processStruct(visitor *Visitor, schema *ast.Schem
 }
 
 func (pass *PrefixObjectNames) processDisjunction(visitor *Visitor, schema *ast.Schema, disjunction ast.Type) (ast.Type, error) {
-	disjunction.Disjunction.DiscriminatorMapping = pass.processDisjunctionMapping(disjunction.Disjunction.DiscriminatorMapping)
+	disjunction.Disjunction.DiscriminatorMapping = pass.processDisjunctionMapping(schema, *disjunction.Disjunction)
 	disjunction.AddToPassesTrail(fmt.Sprintf("PrefixObjectNames[prefix=%s]", pass.Prefix))
 
 	var err error
@@ -93,16 +101,38 @@ func (pass *PrefixObjectNames) processDisjunction(visitor *Visitor, schema *ast.
 	return disjunction, nil
 }
 
-func (pass *PrefixObjectNames) processDisjunctionMapping(discriminatorMapping map[string]string) map[string]string {
-	newMapping := make(map[string]string, len(discriminatorMapping))
-	for discriminator, typeName := range discriminatorMapping {
-		newMapping[discriminator] = pass.Prefix + typeName
+// renames tells whether the objects of the given package are renamed by this pass.
+func (pass *PrefixObjectNames) renames(pkg string) bool {
+	_, found := pass.packages[pkg]
+	return found
+}
+
+func (pass *PrefixObjectNames) processDisjunctionMapping(schema *ast.Schema, disjunction ast.DisjunctionType) map[string]string {
+	newMapping := make(map[string]string, len(disjunction.DiscriminatorMapping))
+	for discriminator, typeName := range disjunction.DiscriminatorMapping {
+		// the entry designates a branch of the disjunction: it follows the name of that branch
+		pkg := schema.Package
+		for _, branch := range disjunction.Branches {
+			if branch.IsRef() && branch.Ref.ReferredType == typeName {
+				pkg = branch.Ref.ReferredPkg
+				break
+			}
+		}
+
+		newMapping[discriminator] = typeName
+		if pass.renames(pkg) {
+			newMapping[discriminator] = pass.Prefix + typeName
+		}
 	}
 
 	return newMapping
 }
 
 func (pass *PrefixObjectNames) processRef(_ *Visitor, _ *ast.Schema, ref ast.Type) (ast.Type, error) {
+	if !pass.renames(ref.Ref.ReferredPkg) {
+		return ref, nil
+	}
+
 	originalName := ref.Ref.ReferredType
 	ref.Ref.ReferredType = pass.Prefix + originalName
 	ref.AddToPassesTrail(fmt.Sprintf("PrefixObjectNames[%s → %s]", originalName, ref.Ref.ReferredType))
@@ -126,6 +156,10 @@ func (pass *PrefixObjectNames) processEnum(_ *Visitor, _ *ast.Schema, enum ast.T
 }
 
 func (pass *PrefixObjectNames) processConstantRef(_ *Visitor, _ *ast.Schema, ref ast.Type) (ast.Type, error) {
+	if !pass.renames(ref.ConstantReference.ReferredPkg) {
+		return ref, nil
+	}
+
 	originalName := ref.ConstantReference.ReferredType
 	ref.ConstantReference.ReferredType = pass.Prefix + originalName
 	ref.AddToPassesTrail(fmt.Sprintf("PrefixObjectNames[%s → %s]", originalName, ref.ConstantReference.ReferredType))
